@@ -1,5 +1,6 @@
 import PytezosModel.Proofs.InterpGood
 import PytezosModel.Proofs.InterpGoodColl
+set_option linter.unusedSectionVars false   -- `[Mode]` is a section variable of every lemma here; some do not use it
 /-! Progress for the rules without sub-programs: on a well-typed stack (`StackWF`, `GoodStack`) on which the typing rule
 of the instruction applies, the reference rule is not stuck, and its result stack satisfies `GoodStack` again
 (`Res.Safe GoodStack`).  One lemma `safe_<I>` per instruction form, collected in `step_safe`. -/
